@@ -27,102 +27,102 @@ def tbl(pkg, test, shards, engine, race=False, wall=900):
 # ---- SIM-only properties ----
 plan("C01", "exploration",
      [sim("elections", 25), sim("random", 10), sim("churn", 8), sim("notify", 10), sim("xfervote", 8)],
-     [sim("elections", 700), sim("random", 400), sim("churn", 300), sim("fig8", 200), sim("notify", 300), sim("xfervote", 200), sim("elections", 60, race=True)],
+     [sim("elections", 230), sim("random", 130), sim("churn", 100), sim("fig8", 70), sim("notify", 100), sim("xfervote", 70), sim("elections", 60, race=True)],
      {"leader-elected": 2}, "at least two leader elections",
-     {"quick": {"leader-elected": 200}, "thorough": {"leader-elected": 5000}})
+     {"quick": {"leader-elected": 200}, "thorough": {"leader-elected": 1250}})
 plan("C02", "exploration",
      [sim("fig8", 20), sim("fig8x", 10), sim("random", 15), sim("lagging", 15)],
-     [sim("fig8", 500), sim("fig8x", 200), sim("random", 500), sim("lagging", 300), sim("crashpoints", 200), sim("random", 60, race=True)],
+     [sim("fig8", 170), sim("fig8x", 70), sim("random", 170), sim("lagging", 100), sim("crashpoints", 70), sim("random", 60, race=True)],
      {"fsm-apply": 20}, "at least 20 entries handed to FSMs",
-     {"quick": {"fsm-restore": 20, "fsm-apply": 5000}, "thorough": {"fsm-restore": 500}})
+     {"quick": {"fsm-restore": 20, "fsm-apply": 5000}, "thorough": {"fsm-restore": 125}})
 plan("C03", "exploration",
-     [sim("fig8", 20), sim("fig8x", 12), sim("storefail", 10), sim("random", 10), sim("elections", 8)],
-     [sim("fig8", 800), sim("fig8x", 300), sim("storefail", 300), sim("random", 400), sim("elections", 300), sim("crashpoints", 200)],
+     [sim("fig8", 16), sim("fig8x", 12), sim("storefail", 10), sim("random", 8), sim("elections", 6), sim("cfgquorum", 8)],
+     [sim("fig8", 270), sim("fig8x", 100), sim("storefail", 100), sim("random", 130), sim("elections", 100), sim("crashpoints", 70), sim("cfgquorum", 60), sim("cfggate", 40)],
      {"leader-completeness-checked": 1}, "a leader was elected after entries were known to be committed",
-     {"quick": {"leader-completeness-checked": 100}, "thorough": {"leader-completeness-checked": 3000}})
+     {"quick": {"leader-completeness-checked": 100}, "thorough": {"leader-completeness-checked": 750}})
 plan("C08", "exploration",
      [sim("clients", 40), sim("random", 20)],
-     [sim("clients", 900), sim("random", 400), sim("fig8", 200), sim("clients", 60, race=True)],
+     [sim("clients", 300), sim("random", 130), sim("fig8", 70), sim("clients", 60, race=True)],
      {"call-ok:apply": 10}, "at least 10 acknowledged Apply calls",
-     {"quick": {"call-ok:apply": 2000, "definite-failure": 50, "porcupine-ok": 30}, "thorough": {"porcupine-ok": 800}})
+     {"quick": {"call-ok:apply": 2000, "definite-failure": 50, "porcupine-ok": 30}, "thorough": {"porcupine-ok": 200}})
 plan("C09", "exploration",
      [sim("verify", 40), sim("lease", 15), sim("churn", 25)],
-     [sim("verify", 1200), sim("lease", 400), sim("random", 400), sim("churn", 500)],
+     [sim("verify", 400), sim("lease", 130), sim("random", 130), sim("churn", 170)],
      {"verify-ok": 1}, "a VerifyLeader call returned nil",
-     {"quick": {"verify-ok": 100, "lease-cut:voters-cut-nonvoters-reachable": 20}, "thorough": {"verify-ok": 3000}})
+     {"quick": {"verify-ok": 100, "lease-cut:voters-cut-nonvoters-reachable": 20}, "thorough": {"verify-ok": 750}})
 plan("C10", "fault_enumeration",
      [sim("crashpoints", 38), sim("snapcfg", 12), sim("random", 10)],
-     [sim("crashpoints", 1000), sim("snapcfg", 300), sim("random", 400), sim("churn", 200), sim("restore", 100)],
+     [sim("crashpoints", 330), sim("snapcfg", 100), sim("random", 130), sim("churn", 70), sim("restore", 50)],
      {"restart-checked": 4}, "at least one restart from a crash image was compared with what the new incarnation reports",
-     {"quick": {"restart-checked": 300, "restart-with-snapshot": 30}, "thorough": {"restart-checked": 8000}})
+     {"quick": {"restart-checked": 300, "restart-with-snapshot": 30}, "thorough": {"restart-checked": 2000}})
 plan("C12", "exploration",
      [sim("lagging", 25), sim("random", 20), sim("churn", 15)],
-     [sim("lagging", 500), sim("random", 500), sim("churn", 400), sim("crashpoints", 200), sim("random", 60, race=True)],
+     [sim("lagging", 170), sim("random", 170), sim("churn", 130), sim("crashpoints", 70), sim("random", 60, race=True)],
      {"tail-one-leader": 1}, "the quiet tail ended with the bounded-progress readings taken",
-     {"quick": {"tail-member-checked": 60}, "thorough": {"tail-member-checked": 2000}})
+     {"quick": {"tail-member-checked": 60}, "thorough": {"tail-member-checked": 500}})
 plan("C13", "exploration",
      [sim("lease", 40), sim("elections", 8), sim("quiet", 8, wall=600)],
-     [sim("lease", 900), sim("quiet", 100, wall=900), sim("verify", 200), sim("elections", 300), sim("notify", 200)],
+     [sim("lease", 300), sim("quiet", 50, wall=900), sim("verify", 70), sim("elections", 100), sim("notify", 70)],
      {"lease-stepdown-measured": 1}, "a leader that lost its majority was timed until step-down (or the run was a long fault-free one)",
-     {"quick": {"lease-stepdown-measured": 60, "quiet-run": 4}, "thorough": {"lease-stepdown-measured": 1500, "quiet-run": 60}})
+     {"quick": {"lease-stepdown-measured": 60, "quiet-run": 4}, "thorough": {"lease-stepdown-measured": 375, "quiet-run": 15}})
 plan("C14", "exploration",
      [sim("prevote", 50)],
-     [sim("prevote", 1200)],
+     [sim("prevote", 400)],
      {"pv-isolation-completed": 1}, "a pre-vote enabled server was isolated and reconnected",
-     {"quick": {"pv-isolation-completed": 40, "pv-reconnect-checked": 15}, "thorough": {"pv-isolation-completed": 1000}})
+     {"quick": {"pv-isolation-completed": 40, "pv-reconnect-checked": 15}, "thorough": {"pv-isolation-completed": 250}})
 plan("C17", "exploration",
      [sim("shutdown", 30), sim("random", 10), sim("restore", 20)],
-     [sim("shutdown", 800), sim("random", 300), sim("churn", 300), sim("clients", 200), sim("restore", 300)],
+     [sim("shutdown", 270), sim("random", 100), sim("churn", 100), sim("clients", 70), sim("restore", 100)],
      {"call:apply": 10}, "client futures were observed (and, for the shutdown family, calls raced with and followed Shutdown)",
-     {"quick": {"after-shutdown-call": 100}, "thorough": {"after-shutdown-call": 2000}})
+     {"quick": {"after-shutdown-call": 100}, "thorough": {"after-shutdown-call": 500}})
 plan("C18", "exploration",
      [sim("notify", 40), sim("random", 10), sim("elections", 10)],
-     [sim("notify", 1000), sim("random", 300), sim("elections", 400), sim("storefail", 100)],
+     [sim("notify", 330), sim("random", 100), sim("elections", 130), sim("storefail", 50)],
      {"notify": 2}, "leadership notifications were delivered",
-     {"quick": {"notify": 150, "leader-sample-checked": 100}, "thorough": {"notify": 4000}})
+     {"quick": {"notify": 150, "leader-sample-checked": 100}, "thorough": {"notify": 1000}})
 plan("C20", "exploration",
      [sim("restore", 50)],
-     [sim("restore", 1200)],
+     [sim("restore", 400)],
      {"userrestore-ok": 1}, "a user Restore returned nil",
-     {"quick": {"userrestore-ok": 20}, "thorough": {"userrestore-ok": 500}})
+     {"quick": {"userrestore-ok": 20}, "thorough": {"userrestore-ok": 125}})
 
 # ---- mixed engines ----
 plan("C04", "exploration",
      [tbl("handler", "TestC04", 8, "HANDLER"), sim("fig8", 18), sim("random", 10), sim("storefail", 8), sim("snapterm", 8)],
-     [tbl("handler", "TestC04", 16, "HANDLER", wall=3000), sim("fig8", 500), sim("random", 500), sim("elections", 200), sim("storefail", 200), sim("snapterm", 150), sim("lagging", 200)],
+     [tbl("handler", "TestC04", 16, "HANDLER", wall=3000), sim("fig8", 170), sim("random", 170), sim("elections", 70), sim("storefail", 70), sim("snapterm", 50), sim("lagging", 70)],
      None, None,
-     {"quick": {"ae-success-with-entries": 1000, "truncation": 20}, "thorough": {"truncation": 1000}},
+     {"quick": {"ae-success-with-entries": 1000, "truncation": 20}, "thorough": {"truncation": 250}},
      rule="HANDLER: every (follower log, snapshot boundary, current term) x (request term, previous-entry position, batch, conflict position, leader commit) within the bounds "
           "(log <= 5 entries over 3 terms) is enumerated; thorough runs all of them, quick a seeded sample; a case is non-trivial when entries were sent and accepted. "
           "SIM: " + (SIM_RULE % "at least 10 successful AppendEntries with entries were checked against the follower's reconstructed disk"))
 plan("C05", "exploration",
      [tbl("table", "TestC05", 8, "TABLE"), sim("churn", 16), sim("random", 10), sim("fig8x", 8), sim("storefail", 10)],
-     [tbl("table", "TestC05", 16, "TABLE", wall=3000), sim("churn", 500), sim("random", 500), sim("fig8", 300), sim("fig8x", 200), sim("storefail", 300)],
+     [tbl("table", "TestC05", 16, "TABLE", wall=3000), sim("churn", 170), sim("random", 170), sim("fig8", 100), sim("fig8x", 70), sim("storefail", 100)],
      None, None,
-     {"quick": {"leader-commit": 1000, "majority-checked-at-leader-commit": 500}, "thorough": {"leader-commit": 30000}},
+     {"quick": {"leader-commit": 1000, "majority-checked-at-leader-commit": 500}, "thorough": {"leader-commit": 7500}},
      rule="TABLE: every configuration over 3 servers (voter / non-voter / staging / absent, >= 1 voter) x startIndex 1..3 x every sequence of <= 3 (quick) / <= 4 (thorough) "
           "match / setConfiguration calls, plus seeded random sequences (<= 30 calls, 7 servers), each compared call by call with a brute-force reference; distinct = (initial configuration, startIndex) classes and sampled random cases. "
           "SIM: " + (SIM_RULE % "at least 5 leader commit advances were checked against the voters' reconstructed disks"))
 plan("C06", "fault_enumeration",
      [tbl("handler", "TestC06", 8, "HANDLER"), sim("elections", 22), sim("crashpoints", 10), sim("xfervote", 6)],
-     [tbl("handler", "TestC06", 16, "HANDLER", wall=3000), sim("elections", 600), sim("crashpoints", 300), sim("random", 300), sim("xfervote", 150)],
+     [tbl("handler", "TestC06", 16, "HANDLER", wall=3000), sim("elections", 200), sim("crashpoints", 100), sim("random", 100), sim("xfervote", 50)],
      None, None,
      {"quick": {"vote-granted": 300, "fault-before": 500, "own-candidacy-won": 100}, "thorough": {"fault-before": 10000, "own-candidacy-won": 2000}},
      rule="HANDLER: persisted state (term, vote record incl. term-without-candidate, log tail, configuration) x sequences of 2-3 RequestVote / RequestPreVote / heartbeat / TimeoutNow messages (TimeoutNow makes the server campaign itself; two fake peers hold its requests and grant them at the end, so a win after a grant to a competitor is seen) x "
           "{no fault, crash before, crash after, error} at EVERY stable-store write the sequence performs (measured by a dry run), restart and continue; quick samples base sequences, thorough 30000 of them; "
           "non-trivial = a vote was granted. SIM: " + (SIM_RULE % "votes were granted in live elections with crashes/errors armed on the vote and term writes"))
 plan("C07", "exploration",
-     [tbl("table", "TestC07", 4, "TABLE"), sim("churn", 30), sim("cfgtrunc", 12), sim("elections", 8)],
-     [tbl("table", "TestC07", 16, "TABLE"), sim("churn", 900), sim("cfgtrunc", 300), sim("elections", 300), sim("notify", 200)],
+     [tbl("table", "TestC07", 4, "TABLE"), sim("churn", 24), sim("cfgtrunc", 10), sim("cfggate", 8), sim("cfgquorum", 4), sim("elections", 6)],
+     [tbl("table", "TestC07", 16, "TABLE"), sim("churn", 300), sim("cfgtrunc", 100), sim("cfggate", 80), sim("cfgquorum", 40), sim("elections", 100), sim("notify", 70)],
      None, None,
-     {"quick": {"config-append": 40, "cfg-entry-stored": 100}, "thorough": {"config-append": 1000}},
+     {"quick": {"config-append": 40, "cfg-entry-stored": 100}, "thorough": {"config-append": 250}},
      rule="TABLE: every configuration over 3 (quick) / 4 (thorough) server ids x every command x every target (incl. a new id) x address in {own, another server's, new, empty} x prevIndex in {0, current, stale-, stale+}, "
           "compared with the stated rules; non-trivial = the voter set changed by one. SIM: " + (SIM_RULE % "a configuration entry was appended / stored"))
 plan("C11", "fault_enumeration",
      [tbl("table", "TestC11", 1, "TABLE"), sim("lagging", 20), sim("crashpoints", 18), sim("snapcfg", 8), sim("random", 8), sim("snapterm", 6)],
-     [tbl("table", "TestC11", 1, "TABLE"), sim("lagging", 500), sim("crashpoints", 500), sim("snapcfg", 200), sim("random", 300), sim("restore", 100), sim("snapterm", 100)],
+     [tbl("table", "TestC11", 1, "TABLE"), sim("lagging", 170), sim("crashpoints", 170), sim("snapcfg", 70), sim("random", 100), sim("restore", 50), sim("snapterm", 50)],
      None, None,
-     {"quick": {"op:snap.close": 100, "compaction": 50, "snapshot-fidelity-checked": 100}, "thorough": {"op:snap.close": 3000}},
+     {"quick": {"op:snap.close": 100, "compaction": 50, "snapshot-fidelity-checked": 100}, "thorough": {"op:snap.close": 750}},
      rule="TABLE: compactLogsWithTrailing for every (first, last, snapshot index, last log index, TrailingLogs) with values 0..8 (exhaustive); "
           "SIM: " + (SIM_RULE % "a snapshot was persisted; the disk invariant is evaluated after every store operation (each one is a potential crash image)"))
 
